@@ -3,6 +3,7 @@ package main
 // SMT portfolio: z3-new, z3 (4.8.12), cvc5 raced per obligation.
 
 import (
+	"sort"
 	"bytes"
 	"context"
 	"fmt"
@@ -178,4 +179,59 @@ func delambda(q string) string {
 		lines[i] = fmt.Sprintf("(assert (forall ((r Int)) (= (select %s r) %s)))", x, body)
 	}
 	return strings.Join(lines, "\n")
+}
+
+// crossCheck re-runs every discharged (unsat) obligation on the other solvers
+// of the portfolio. It returns how many obligations a second solver confirmed
+// and the names of obligations on which some solver answered sat (a
+// disagreement between solvers: one of them is wrong, nothing can be trusted).
+func crossCheck(obls []*Obligation, dir string, timeoutS, workers int) (confirmed int, disagreements []string) {
+	os.MkdirAll(dir, 0o755)
+	var mu sync.Mutex
+	var wg sync.WaitGroup
+	sem := make(chan struct{}, workers)
+	for i, o := range obls {
+		if o.WantSat || o.Result != "unsat" || o.Solver == "structural" || o.Query == "" {
+			continue
+		}
+		wg.Add(1)
+		sem <- struct{}{}
+		go func(i int, o *Obligation) {
+			defer wg.Done()
+			defer func() { <-sem }()
+			file := filepath.Join(dir, fmt.Sprintf("x%04d.smt2", i))
+			q := o.Query + "(check-sat)\n"
+			os.WriteFile(file, []byte(q), 0o644)
+			if strings.Contains(q, "(lambda ((r Int)) ") {
+				os.WriteFile(file+".cvc5", []byte(delambda(q)), 0o644)
+			}
+			ok := false
+			for _, s := range solvers {
+				if s.name == o.Solver || s.name == "z3-qi" || (s.name == "z3-new" && o.Solver == "z3-qi") {
+					continue // only a different solver implementation counts as confirmation
+				}
+				ctx, cancel := context.WithTimeout(context.Background(), time.Duration(timeoutS+2)*time.Second)
+				r := runOne(ctx, s, file, timeoutS)
+				cancel()
+				if r.result == "unsat" {
+					ok = true
+				}
+				if r.result == "sat" {
+					mu.Lock()
+					disagreements = append(disagreements, o.Name+" ("+o.Solver+": unsat, "+s.name+": sat)")
+					mu.Unlock()
+				}
+			}
+			if ok {
+				mu.Lock()
+				confirmed++
+				mu.Unlock()
+			}
+			os.Remove(file)
+			os.Remove(file + ".cvc5")
+		}(i, o)
+	}
+	wg.Wait()
+	sort.Strings(disagreements)
+	return
 }
